@@ -49,8 +49,10 @@ Clauses.  For each DRY run (VIOLATION otherwise):
        FluxScriptAdapter.__init__ through FluxInterface.get_flux_version / connect_to_flux.  They are
        COUNTED and reported in the coverage (`flux_dry_run_broker_reads`), not hidden: on the unchanged
        tree a Flux dry run opens a broker handle and reads its version (DESIGN 10.3, C17);
-  (p4) directory tree below the output path and (without --usetmp) the *.sh files on disk equal
-       the real run's (harness/props/c17_e2e.py tree_clause / disk_scripts).
+  (p4) directory tree below the output path, the permission bits (stat.S_IMODE) of every directory and
+       every generated *.sh, and (without --usetmp) the *.sh files' bytes equal the real run's
+       (harness/props/c17_e2e.py tree_clause / mode_map / disk_scripts); every *.sh a dry run leaves is
+       executable by its owner.
 For each REAL run (a MISMATCH otherwise -- the monitor must be shown to be live, not vacuous):
   exit code 0; slurm / lsf: cmds.log holds a submission AND a status query, doors.log is not empty;
   flux: doors.log holds flux:job.submit; local: doors.log holds the execution of a step script.
@@ -601,6 +603,10 @@ def judge(case, d, res):
                 except Exception as e:
                     viol.append("the dry run (%s) ended successfully but left no readable status.csv: %r" % (describe(which, case), e))
                 real = which.replace("dry", "real")
+                notx = sorted(k for k, m in c17_e2e.mode_map(out).items() if k.endswith(".sh") and (m is None or not m & 0o100))
+                if notx and not (real in res and res[real]["rc"] == 0):
+                    viol.append("%s: the dry run left %d generated script(s) not executable by their owner, e.g. %s"
+                                % (describe(which, case), len(notx), notx[0]))
                 if real in res and res[real]["rc"] == 0:
                     t = c17_e2e.tree_clause(case, out, os.path.join(d, real))
                     if t:
